@@ -38,9 +38,9 @@ def argOk (consts : Array Val) (i : Instr) : Bool :=
   | _ => true
 
 /-- `t` is an instruction boundary of `is`: the offset at which one of its instructions starts, or its end -/
-def boundary : List Instr → Nat → Bool
+def instrBoundary : List Instr → Nat → Bool
   | [], t => t == 0
-  | i :: is, t => t == 0 || (decide (i.size ≤ t) && boundary is (t - i.size))
+  | i :: is, t => t == 0 || (decide (i.size ≤ t) && instrBoundary is (t - i.size))
 
 /-- the instruction at offset `off` jumps (if it is a jump) to an offset accepted by `bnd`;
     forward target `ip_after + arg`, backward target `ip_after - arg` as in vm.go -/
@@ -64,7 +64,7 @@ def nestOk : Nat → List Instr → Option Nat
 
 /-- well-formedness of a decoded program -/
 def wfInstrs (consts : Array Val) (is : List Instr) : Bool :=
-  is.all (argOk consts) && jumpsOk (boundary is) 0 is && (nestOk 0 is == some 0)
+  is.all (argOk consts) && jumpsOk (instrBoundary is) 0 is && (nestOk 0 is == some 0)
 
 /-- The static checker on raw bytes (fuel `bytes.length` always suffices: every instruction consumes a byte). -/
 def wfStatic (bytes : List Nat) (consts : Array Val) : Bool :=
@@ -116,7 +116,7 @@ def firstBadInstr (consts : Array Val) (all : List Instr) : Nat → Nat → List
       some ((match i.op.argClass with
         | .castKind => "cast-kind"
         | _ => if i.arg < consts.size then "const-class" else "const-index"), off)
-    else if !jumpOk (boundary all) off i then some ("jump-target", off)
+    else if !jumpOk (instrBoundary all) off i then some ("jump-target", off)
     else if i.op = .begin_ then firstBadInstr consts all (off + i.size) (d + 1) is
     else if i.op = .end_ then
       (if d = 0 then some ("scope-nesting", off) else firstBadInstr consts all (off + i.size) (d - 1) is)
